@@ -161,6 +161,48 @@ def gen():
     wb = F.fn_body(t, "write_elem", rel)
     out.append(G.coq_list("write_elem_left_guards", G.guards_of(wb, {"left": "none"}, rel + ":write_elem")))
     out.append(G.coq_list("write_elem_right_guards", G.guards_of(wb, {"right": "none"}, rel + ":write_elem")))
+    # ---- state carried over between compile calls: what DictBuilder::compile (and what it calls) changes in the builder
+    rel = BUILD + "conn.rs"
+    ct = no_tests(F.strip_comments(F.src(rel)))
+    m = re.search(r"pub\s+fn\s+write_to<W:\s*Write>\(\s*(&mut\s+self|&self)\s*,", ct)
+    if not m:
+        raise F.FactError("ConnBuffer::write_to signature not recognised")
+    wtb = F.fn_body(ct, "write_to", rel)
+    keeps = (m.group(1) == "&self" and re.search(r"writer\.write_all\(&self\.matrix\)\?", wtb) is not None
+             and not re.search(r"mem::(take|replace|swap)|self\.matrix\.(clear|drain|truncate|split_off)|self\.matrix\s*=", wtb))
+    out.append("(* ConnBuffer::write_to writes &self.matrix and leaves it in the buffer *)\nDefinition conn_write_keeps_matrix : bool := %s.\n" % ("true" if keeps else "false"))
+    mutated = []
+    if m.group(1) != "&self":
+        mutated.append("conn.rs:write_to takes &mut self")
+    lt = no_tests(F.strip_comments(F.src(BUILD + "lexicon.rs")))
+    for fn in ("validate_entries", "write_pos_table", "entries", "needs_split_resolution"):
+        mm = re.search(r"fn\s+%s(?:<[^>]*>)?\(\s*(&mut\s+self|&self)" % fn, lt)
+        if not mm:
+            raise F.FactError("LexiconReader::%s signature not recognised" % fn)
+        if mm.group(1) != "&self":
+            mutated.append("lexicon.rs:%s takes &mut self" % fn)
+    ht = no_tests(F.strip_comments(F.src("sudachi/src/dic/header.rs")))
+    mm = re.search(r"pub\s+fn\s+write_to<W:\s*Write>\(\s*(&mut\s+self|&self)", ht)
+    if not mm:
+        raise F.FactError("Header::write_to signature not recognised")
+    if mm.group(1) != "&self":
+        mutated.append("header.rs:write_to takes &mut self")
+    mt = no_tests(F.strip_comments(F.src(BUILD + "mod.rs")))
+    allowed_calls = {"lexicon": {"validate_entries", "entries", "write_pos_table", "needs_split_resolution"}, "conn": {"write_to"},
+                     "header": {"write_to"}, "reporter": None, "ctx": {"err"}, "prebuilt": set(), "user": set(), "resolved": set()}
+    for fn in ("compile", "write_grammar", "write_index", "write_lexicon", "check_if_resolved"):
+        body = F.fn_body(mt, fn, BUILD + "mod.rs")
+        for mm in re.finditer(r"\bself\.([a-z_]+)\s*(?:=[^=]|\+=|-=)", body):
+            mutated.append("mod.rs:%s assigns self.%s" % (fn, mm.group(1)))
+        for mm in re.finditer(r"mem::(?:take|replace|swap)\(\s*&mut\s+self\.([a-z_]+)", body):
+            mutated.append("mod.rs:%s moves self.%s out" % (fn, mm.group(1)))
+        for mm in re.finditer(r"\bself\.([a-z_]+)\.([a-z_]+)\(", body):
+            fld, meth = mm.groups()
+            if fld not in allowed_calls:
+                mutated.append("mod.rs:%s uses unknown field self.%s" % (fn, fld))
+            elif allowed_calls[fld] is not None and meth not in allowed_calls[fld]:
+                mutated.append("mod.rs:%s calls self.%s.%s" % (fn, fld, meth))
+    out.append("(* builder state (other than the reporter) that DictBuilder::compile or its callees change *)\nDefinition compile_mutated_state : list string := [ %s ].\n" % "; ".join('"%s"' % x for x in sorted(set(mutated))))
     # ---- index.rs: a lexicon without indexed entries
     rel = BUILD + "index.rs"
     t = no_tests(F.strip_comments(F.src(rel)))
